@@ -23,11 +23,11 @@ ASSUMPTIONS = [
     'look-ahead is measured at row-iterator level (rows pulled from the Python source), not bytes read by a file parser',
     'the constant allows the inference sample (100 rows for iterables, 1000 rows for load() of a file) plus 64 rows of fixed batching',
 ]
-BUDGET = {'quick': dict(examples=1280, shards=16, seconds=80),
+BUDGET = {'quick': dict(examples=960, shards=16, seconds=80),
           'thorough': dict(examples=6000, shards=16, seconds=1200)}
 
 KINDS = ['add_field', 'add_computed', 'delete_fields', 'select_fields', 'rename_fields', 'find_replace', 'set_type', 'validate',
-         'filter_rows', 'unpivot', 'concatenate', 'printer', 'dump_to_path', 'dump_to_zip', 'stream_file', 'checkpoint',
+         'filter_rows', 'unpivot', 'concatenate', 'delete_resource', 'concatenate', 'printer', 'dump_to_path', 'dump_to_zip', 'stream_file', 'checkpoint',
          'row_fn', 'rows_fn', 'update_resource', 'update_schema', 'update_package', 'update_stats', 'finalizer']
 BOUND = 100 + 64
 FIELDS = [{'name': '_p', 'type': 'integer'}, {'name': 'id', 'type': 'integer'}, {'name': 'g', 'type': 'integer'},
@@ -36,8 +36,13 @@ FIELDS = [{'name': '_p', 'type': 'integer'}, {'name': 'id', 'type': 'integer'}, 
 
 @st.composite
 def cases_(draw, tier):
-    n_src = draw(st.integers(1, 2))
-    pkg = [{'name': 'res_%d' % (i + 1), 'fields': copy.deepcopy(FIELDS), 'rows': []} for i in range(n_src)]
+    n_src = draw(st.integers(1, 3))
+    form = draw(st.sampled_from(['generator', 'load_tuple', 'sources', 'load_file', 'sized_iterable', 'sql_query']))
+    keep = list(range(n_src))
+    if form == 'load_tuple' and n_src >= 2 and draw(st.booleans()):
+        # load((descriptor, iterators), resources=[...]) selecting only some of the resources (the first one always)
+        keep = [0] + [i for i in range(1, n_src) if draw(st.booleans())]
+    pkg = [{'name': 'res_%d' % (i + 1), 'fields': copy.deepcopy(FIELDS), 'rows': []} for i in keep]
     gp.PROTECTED.add('_p')
     try:
         prog = draw(gp.programs(1, 6, kinds=KINDS, pkg=pkg, favour_mutators=False))
@@ -47,10 +52,9 @@ def cases_(draw, tier):
         if s['k'] == 'rows_fn' and s['fn'] == 'swallow':
             s['fn'] = 'identity'
     sizes = [300, 1500] if tier == 'quick' else draw(st.sampled_from([[300, 2000], [1000, 20000], [2000, 100000]]))
-    form = draw(st.sampled_from(['generator', 'load_tuple', 'sources', 'load_file', 'sized_iterable']))
-    if form == 'load_file' and tier == 'quick':
+    if form in ('load_file', 'sql_query') and tier == 'quick':
         sizes = [1500, 4000]          # load() samples 1000 rows for inference
-    return {'n_src': n_src, 'steps': prog['steps'], 'source_form': form, 'sizes': sizes,
+    return {'n_src': n_src, 'steps': prog['steps'], 'source_form': form, 'sizes': sizes, 'keep': keep,
             # a column that stays null for the first rows of the stream (inference must not wait for a value)
             'null_prefix': draw(st.sampled_from([0, 0, 50, 150, 10 ** 9])),
             'infer': draw(st.sampled_from([None, 'full', 'pytypes'])),
@@ -91,6 +95,32 @@ def _mix(draw, tier):
 
 def cases(tier):
     return _mix(tier)
+
+
+SQL_COUNTER = {'pulled': None, 'installed': False}
+
+
+def _install_sql_counter():
+    """Every SQLite connection opened through SQLAlchemy in this process gets the counting function."""
+    if SQL_COUNTER['installed']:
+        return
+    import sqlalchemy
+    from sqlalchemy import event
+    from sqlalchemy.engine import Engine
+
+    def cnt(p):
+        pulled = SQL_COUNTER['pulled']
+        if pulled is not None and p is not None:
+            pulled[p // 10 ** 7] += 1
+        return p
+
+    @event.listens_for(Engine, 'connect')
+    def _on_connect(dbapi_con, rec):
+        try:
+            dbapi_con.create_function('dfverif_cnt', 1, cnt)
+        except Exception:
+            pass
+    SQL_COUNTER['installed'] = True
 
 
 def run(case, n, ctx):
@@ -189,9 +219,28 @@ def run(case, n, ctx):
                 kw['infer_strategy'] = {'full': L.INFER_FULL, 'strings': L.INFER_STRINGS, 'pytypes': L.INFER_PYTHON_TYPES}[case['infer']]
             srcs.append(dataflows.load('res_%d.counting' % (s_ + 1), name='res_%d' % (s_ + 1), format='counting',
                                        custom_parsers={'counting': make()}, **kw))
+    elif form == 'sql_query':
+        # load(format='sql') of a query over an SQLite table; a user-defined SQL function counts the rows the database hands out
+        import sqlite3
+        _install_sql_counter()
+        srcs = []
+        for s_ in range(case['n_src']):
+            dbf = os.path.join(ctx.tmpdir(), 'src%d.sqlite' % s_)
+            con = sqlite3.connect(dbf)
+            con.execute('create table t (_p integer, id integer, g integer, txt text, n1 integer)')
+            con.executemany('insert into t values (?,?,?,?,?)',
+                            [(s_ * 10 ** 7 + i, i + 1, i % 3 + 1, 's%d' % (i % 17), (i % 11) if i >= case.get('null_prefix', 0) else None)
+                             for i in range(n)])
+            con.commit()
+            con.close()
+            SQL_COUNTER['pulled'] = pulled
+            srcs.append(dataflows.load('sqlite:///' + dbf, name='res_%d' % (s_ + 1), format='sql',
+                                       query='select dfverif_cnt(_p) as _p, id, g, txt, n1 from t order by rowid'))
     else:
         desc = gen.descriptor_of([{'name': 'res_%d' % (s + 1), 'fields': FIELDS, 'rows': []} for s in range(case['n_src'])])
         kw = {'limit_rows': case['k']} if case.get('early_stop') == 'limit_rows' else {}
+        if case.get('keep') and len(case['keep']) < case['n_src']:
+            kw['resources'] = ['res_%d' % (i + 1) for i in case['keep']]
         srcs = [dataflows.load((desc, [source(s) for s in range(case['n_src'])]), **kw)]
     with quiet():
         Flow(*srcs, *steps, tap).process()
@@ -235,7 +284,7 @@ def check(case, ctx):
             raise unexpected(e, '/'.join(prog))
         if any(p != n for p in pulled):
             raise Violation('source-not-fully-consumed', {'pulled': pulled, 'n': n, 'program': prog})
-        bound = BOUND + (900 if case['source_form'] == 'load_file' else 0)     # load() samples 1000 rows
+        bound = BOUND + (900 if case['source_form'] in ('load_file', 'sql_query') else 0)     # load() samples 1000 rows
         if case.get('to_sql'):
             bound += case['to_sql']                                            # plus one write batch
             classes.append('dump_to_sql:batch=%d' % case['to_sql'])
